@@ -3,23 +3,9 @@
    closeness.rs's get_node_centrality. *)
 From Coq Require Import List Bool ZArith Arith QArith Lia Lqa.
 From GV Require Import Base.Outcome Base.AMap Model.GState Model.Cent Model.Brandes Model.Closeness.
-From GV Require Import Spec.ClosenessDef.
+From GV Require Import Spec.ClosenessDef Proofs.CentBase.
 Import ListNotations.
 Open Scope list_scope.
-
-(* ------------------------------------------------------------------ upd / get *)
-Lemma upd_length : forall X (l : list X) i x, length (upd i x l) = length l.
-Proof. induction l as [|h t IH]; intros [|i] x; cbn; auto. Qed.
-
-Lemma nth_upd_eq : forall X (l : list X) i x d, (i < length l)%nat -> nth i (upd i x l) d = x.
-Proof.
-  induction l as [|h t IH]; intros [|i] x d H; cbn in *; try lia; auto. apply IH. lia.
-Qed.
-
-Lemma nth_upd_neq : forall X (l : list X) i j x d, i <> j -> nth j (upd i x l) d = nth j l d.
-Proof.
-  induction l as [|h t IH]; intros [|i] [|j] x d H; cbn; auto; try congruence.
-Qed.
 
 Lemma zrow_out : forall (a : zadj) v, (length a <= v)%nat -> zrow a v = [].
 Proof. intros. unfold zrow. apply nth_overflow. exact H. Qed.
@@ -342,15 +328,6 @@ Proof.
   exists d. split; [rewrite Hlen; apply ck_len with (s := src); exact Hck|]. split.
   - intros v _. apply dist_spec_transposed with (b := za); auto. apply check_dist_sound. exact Hck.
   - rewrite Hlen. exact Hval.
-Qed.
-
-(* ------------------------------------------------------------------ one entry per node *)
-Lemma omapM_length : forall X Y (f : X -> outcome Y) l r, omapM f l = Ok r -> length r = length l.
-Proof.
-  induction l as [|x t IH]; intros r H; cbn in H.
-  - inversion H. reflexivity.
-  - destruct (f x); try discriminate. cbn in H. destruct (omapM f t) eqn:E; try discriminate.
-    cbn in H. inversion H. cbn. f_equal. apply IH. reflexivity.
 Qed.
 
 (* ------------------------------------------------------------------ the model's per-node value *)
